@@ -31,6 +31,10 @@ MODULES = [
     'contracts.c04_runahead',
     'contracts.c05_pool',
     'contracts.c05_pool_replay',
+    'contracts.c43_stop',
+    'contracts.c27_reload',
+    'contracts.c45_abs',
+    'contracts.c26_db',
 ]
 
 EXTRA_CHECKS = {'C26': ['contracts.c26_census:check'],
@@ -44,6 +48,7 @@ EXTRA_CHECKS = {'C26': ['contracts.c26_census:check'],
                         'contracts.c13_dependency_bounded:check'],
                 'C46': ['contracts.c13_dependency_bounded:check'],
                 'C03': ['contracts.c03_replay:bounded_unsat'],
+                'C10': ['contracts.c10_bounded:check'],
                 'C16': ['contracts.c16_bounded:check'],
                 'C18': ['contracts.c18_bounded:check'],
                 'C47': ['contracts.c47_bounded:check', 'contracts.c47_bounded:check_group'],
@@ -51,6 +56,14 @@ EXTRA_CHECKS = {'C26': ['contracts.c26_census:check'],
                 # "exploration", never counted as proof)
                 'C12': ['contracts.c12_bounded:check'],
                 'C17': ['contracts.c17_bounded:check'],
+                'C19': ['contracts.c19_bounded:check'],
+                'C27': ['contracts.c27_bounded:check'],
+                'C29': ['contracts.c29_bounded:check'],
+                'C30': ['contracts.c30_bounded:check'],
+                'C31': ['contracts.c31_bounded:check'],
+                'C38': ['contracts.c38_bounded:check'],
+                'C43': ['contracts.c43_bounded:check'],
+                'C45': ['contracts.c45_bounded:check'],
                 'C21': ['contracts.c21_bounded:check'],
                 'C22': ['contracts.c22_bounded:check'],
                 'C33': ['contracts.c33_bounded:check'],
